@@ -181,7 +181,9 @@ def explore(path_fn, jobs, *, repo, procs=None, chunk=150, wall_cap=3600, seed=0
                     i, job, left, st = r.get()
                     merge(i, st)
                     queue.extend((i, job, p, False) for p in left)
-                nviol = sum(n for l, n in agg["viol_counts"].items() if not l.startswith(tuple(ignore_labels) or ("\0",)))
+                # known findings and the advisory one-step clauses (never verdicts) do not count towards the early stop
+                nviol = sum(n for l, n in agg["viol_counts"].items()
+                            if not l.startswith(tuple(ignore_labels) or ("\0",)) and ".step" not in l)
                 if time.time() - t0 > wall_cap or (max_paths and agg["paths"] >= max_paths) or \
                         (nviol >= stop_after and time.time() - t0 > 60 and len(agg["violations"]) >= 3):
                     # counterexamples do not need an exhaustive exploration: once enough have been collected and the
